@@ -34,7 +34,7 @@ pub fn run(ctx: &Ctx) -> Report {
 	let mut total = Report::new();
 	total.rule = "every valid reference of RAW(n) and of the structured reference domain, plus inputs far larger than any inline buffer (17/40 segments, 600/5000-byte components, multi-byte text); per input ~50 probes: allocation count (counting global allocator, per-thread) across new / validate / each accessor / parts() / full forward and backward segment iteration / first, last, file_name, directory, parent, parent_or_empty / base / authority accessors / component constructors; pointer range of every returned slice relative to the input; order and disjointness of the five components; non-trivial = distinct valid input".into();
 	let rawn = ctx.pick(6usize, 7usize);
-	for f in Family::BOTH {
+	for f in Family::active() {
 		let fr = FamRefs::new(refs, f);
 		let alpha = domains::raw_alphabet(f, 0);
 		let d = refs.dfa(f, Kind::RiRef);
